@@ -140,6 +140,7 @@ class Effects:
                            if f.cls == "TT" and f.module.name == "torchtt._tt_base"}
         self.unresolved: set = set()
         self.repo_methods: dict = {}
+        self.ctor_sites: list = []     # (Func, Call node, class qualname, [arg Vs])
         for q, f in model.functions.items():
             if f.cls is not None and not f.is_property:
                 self.repo_methods.setdefault(f.name, []).append(f)
@@ -542,6 +543,8 @@ class _FuncAnalysis:
                     return V(args[0].roots, "T")
                 if last in VIEW_FUNCS and args:
                     return V(args[0].roots | frozenset(), "T")
+                if last in ("load",):
+                    return FRESH      # arbitrary unpickled object, not a tensor
                 if last == "einsum" and len(args) == 2:
                     return V(args[1].roots, "T")     # single-operand einsum may return a view
                 return FRESH_T
@@ -670,6 +673,7 @@ class _FuncAnalysis:
         return self.subst(s.ret, bound)
 
     def instantiate(self, cls_q: str, e: ast.Call, args, kwargs) -> V:
+        self.eng.ctor_sites.append((self.f, e, cls_q, list(args)))
         init = self.model.functions.get(f"{cls_q}.__init__")
         attrs = {"\0class": V(frozenset([("C", cls_q)]))}
         if init is not None:
